@@ -93,7 +93,7 @@ def _consume(sim, ctx, ds, case, rec):
                 sim.phase = 'stop'
                 ctx.event('stop', kind, k)
                 if kind == 'close':
-                    it.close()
+                    W.close_iter(it)
                 elif kind in ('drop', 'exc'):
                     # 'exc': the consumer body raised; unwinding drops the
                     # iterator exactly like del (refcounting), see driver.
